@@ -18,7 +18,8 @@ PUNCT = ['{', '}', '[', ']', ':', ';', ',', '=', '+=', '+=a', '+ =', '[]', '{}',
 ANY = ['*', '(', ')', '%', '&', '!', '|', '>', '<', '?', '^', '\\', '/', '-', '+', '.', '/x']
 BAD = ['@', '~', '`', '\x80', '\x00', '\x7f', '\x0b', '\x0c']
 TRIVIA = [' ', '  ', '\n', '\r\n', '\t', '// c\n', '//\n', '// at end', '/* b */', '/* a\nb */', '/**/', '/* open', '/*/', '#line 7 "f.cpp"\n', '#line 3\n', '#line x\n', '#line',
-          '#line 12 "a b"\n', '#lineX']
+          '#line 12 "a b"\n', '#lineX', '#line 999999999999999999 "x"\n', '#line 9999999999999999999 "x"\n', '#line 99999999999999999999 "x.cpp"\n',
+          '#line 18446744073709551616\n', '#line 999999999999999999999 "x"\n', '#line 00000000000000000001 "x"\n', '#line 1 "', '#line 1 "x']
 KEYW = ['class', 'delete', 'CLASS', 'Delete', 'classA', 'class1', 'delete_', 'class{', 'clas', 'delet']
 
 
